@@ -263,6 +263,90 @@ def stored_options(ck, obj, given, rep):
                     dict(rep, option=name, given=repr(val), stored=repr(got)))
 
 
+IMAGE_DTYPES = [np.int16, np.uint8, np.bool_, np.float32, np.int64, np.int8, np.float64]
+
+
+def image_dtypes(ck, rng, c, shape, dtypes):
+    """the image's storage type and memory layout do not matter: integer / bool / float32 / Fortran-ordered / strided
+    images smooth to the float result of the same values held in float64, and the image array is not modified"""
+    from nipy.core.api import Image
+    kc = kernel_class(c)
+    for dt in dtypes:
+        dt = np.dtype(dt)
+        if dt == np.bool_:
+            vals = rng.integers(0, 2, shape)
+        elif dt.kind == "u":
+            vals = rng.integers(0, 9, shape)
+        else:
+            vals = rng.integers(-8, 9, shape)
+        for layout in ("C", "F", "strided"):
+            if layout == "C":
+                arr = np.ascontiguousarray(vals.astype(dt))
+            elif layout == "F":
+                arr = np.asfortranarray(vals.astype(dt))
+            else:
+                big = np.zeros(tuple(2 * n for n in shape), dtype=dt)
+                big[::2, ::2, ::2] = vals.astype(dt)
+                arr = big[::2, ::2, ::2]
+            saved = arr.copy()
+            ck.count(("dtype", c.shape, c.fwhm, dt.name, layout), bucket="image-dtype/%s" % dt.name)
+            rep = replay_of(c, x=vals.tolist(), dtype=dt.name, layout=layout, kernel_class=kc)
+            try:
+                got = np.asarray(c.f.smooth(Image(arr, c.cm)).get_fdata())
+            except Exception as e:  # noqa
+                ck.fail("image-dtype/raises/%s" % dt.name, "smooth of a %s image (%s layout) raised %s: %s" % (dt.name, layout, type(e).__name__, e), rep)
+                continue
+            want = window(conv_full(vals.astype(np.float64), c.K) / c.S, c.ck, c.shape)
+            if got.shape != want.shape or not np.allclose(got.astype(np.float64), want, rtol=0, atol=1e-5 if dt == np.float32 else 1e-9):
+                ck.fail("image-dtype/result-depends-on-storage-type/%s" % ("float32" if dt == np.float32 else dt.kind.replace("i", "integer").replace("u", "integer").replace("b", "bool").replace("f", "float64")),
+                        "smooth of a %s image (%s layout) is not the smooth of the same values in float64: result dtype %s, max|diff| %s (%s)"
+                        % (dt.name, layout, got.dtype, float(np.abs(got.astype(float) - want).max()) if got.shape == want.shape else "shape", kc), rep)
+            if not np.array_equal(arr, saved) or arr.dtype != saved.dtype:
+                ck.fail("mutates-input/image-data", "smooth changed the caller's %s image array" % dt.name, rep)
+
+
+def kernel_call_purity(ck, rng, f, A3, fwhm_req, tag):
+    """LinearFilter.__call__ (the kernel as a function of world offsets): evaluated TWICE on the same points object,
+    for several container types / dtypes / axis conventions; value against the independent Gaussian, second
+    evaluation equal to the first, points unchanged"""
+    import copy
+    base = rng.integers(-6, 7, (7, 3)) / 2.0
+    base[0] = 0
+    sig = np.asarray(fwhm_req, float) / SQRT8LN2
+    u = ((base / sig) ** 2).sum(-1) / 2
+    want = np.where(u <= 15, np.exp(-np.minimum(u, 15)), 0.0)
+    makers = [("float64 (n,3)", lambda: base.copy(), -1), ("float64 (3,n) axis=0", lambda: np.ascontiguousarray(base.T), 0),
+              ("float64 view", lambda: np.hstack([base, base])[:, :3], -1), ("float64 fortran", lambda: np.asfortranarray(base.copy()), -1),
+              ("float32", lambda: base.astype(np.float32), -1), ("list", lambda: base.tolist(), -1),
+              ("int64 (doubled offsets)", None, -1)]
+    for kind, mkp, axis in makers:
+        ck.count(("kcall", tag, kind), bucket="kernel-call/%s" % kind.split()[0])
+        if mkp is None:
+            pts = (2 * base).astype(np.int64)
+            u2 = ((pts / sig) ** 2).sum(-1) / 2
+            w = np.where(u2 <= 15, np.exp(-np.minimum(u2, 15)), 0.0)
+        else:
+            pts, w = mkp(), want
+        saved = copy.deepcopy(pts)
+        rep = {"filter": tag, "fwhm": np.asarray(fwhm_req).tolist(), "points_kind": kind, "points": np.asarray(saved).tolist(), "axis": axis,
+               "call": "v1 = filt(points, axis); v2 = filt(points, axis) on the SAME points object"}
+        try:
+            v1 = np.array(f(pts, axis=axis), dtype=float)
+            v2 = np.array(f(pts, axis=axis), dtype=float)
+        except Exception as e:  # noqa
+            ck.fail("kernel-call/integer-points-raise" if kind.startswith("int") else "kernel-call/raises",
+                    "filt(points) with %s points raised %s: %s" % (kind, type(e).__name__, e), rep)
+            continue
+        tol = 1e-5 if kind == "float32" else 1e-12
+        if v1.shape != w.shape or not np.allclose(v1, w, rtol=0, atol=tol):
+            ck.fail("kernel-call/wrong-value", "filt(points) (%s, %s) = %s, expected the Gaussian of the requested width %s" % (kind, tag, v1.tolist(), w.tolist()), rep)
+        if v2.shape != v1.shape or not np.allclose(v2, v1, rtol=0, atol=1e-15):
+            ck.fail("kernel-call/second-evaluation-differs", "the second filt(points) on the same %s object gives %s, the first gave %s" % (kind, v2.tolist(), v1.tolist()), rep)
+        if not np.array_equal(np.asarray(pts), np.asarray(saved)):
+            ck.fail("kernel-call/mutates-points", "filt(points) changed the caller's %s points: %s -> %s" % (kind, np.asarray(saved).tolist(), np.asarray(pts).tolist()),
+                    dict(rep, points_after=np.asarray(pts).tolist()))
+
+
 def kernel_class(c):
     if all(k == 1 for k in c.k):
         return "single-voxel-kernel"
@@ -295,6 +379,7 @@ def options_on_case(ck, rng, c, x, A3, t, shape, fwhm, base):
                     % (how, sc, lo, c.k, float(np.abs(got - want).max())), dict(rep, how=how))
 
     ck.count(("opt", shape, fwhm, sc, lo), bucket="options/%s" % kc)
+    image_dtypes(ck, rng, c, shape, [IMAGE_DTYPES[int(rng.integers(0, len(IMAGE_DTYPES)))]])
     try:
         f2, _ = mk(aff4(A3, t), shape, fwhm, scale=sc, location=lo)
         judge(smooth(f2, c.cm, x).get_fdata(), "LinearFilter(scale, location).smooth")
@@ -633,6 +718,7 @@ def per_axis_width(ck):
                             "%s at the centre and the three half-width points (fwhm %s as %s) gives %s, expected [1, .5, .5, .5]; the fwhm object now reads %s"
                             % (what, req.tolist(), kind, vals.tolist(), np.asarray(obj).tolist()),
                             dict(rep, step=what, points=pts.tolist(), fwhm_object_after=np.asarray(obj).tolist()))
+            kernel_call_purity(ck, np.random.default_rng(0), fresh, A3, req, "per-axis fwhm %s as %s" % (req.tolist(), kind))
             unchanged = np.array_equal(np.asarray(obj), np.asarray(saved)) and (not isinstance(obj, np.ndarray) or obj.dtype == saved.dtype)
             if not unchanged:
                 ck.fail("mutates-input/fwhm-argument", "the caller's fwhm %s %s reads %s after building and using the filters"
@@ -828,6 +914,8 @@ def oracles(ck):
             except Exception as e:  # noqa
                 ck.fail("scale/raises-or-wrong-window", "LinearFilter(scale=%r, location=%r).smooth raised %s: %s" % (sc, lo, type(e).__name__, e),
                         replay_of(c, x=x.tolist(), scale=sc, location=lo))
+        image_dtypes(ck, rng, c, shape, IMAGE_DTYPES)
+        kernel_call_purity(ck, rng, c.f, A3, fwhm, "scalar fwhm %r, shape %s" % (fwhm, shape))
         # every falsy-but-legal value of scale / location (constructor and attribute), clean, is_fft on each configuration
         x = rng.integers(-8, 9, shape).astype(float)
         sx = smooth(c.f, c.cm, x).get_fdata()
